@@ -158,6 +158,18 @@ def main():
                 for p, r in res.items():
                     print("%-8s %-4s %s" % (sid, p, r), flush=True)
                     rows.append((sid, p, r))
+        if "--append" in a:
+            # add / replace the rows of the selected changes in RESULTS.md (for rounds evaluated after a full run)
+            path = os.path.join(SEEDED, "RESULTS.md")
+            lines = open(path).read().splitlines()
+            done = {sid for sid, _, _ in rows}
+            lines = [l for l in lines if not (l.startswith("| ") and l.split("|")[1].strip() in done)]
+            for sid, p, r in rows:
+                meta = json.load(open(os.path.join(SEEDED, sid, "meta.json")))
+                verdict = r.split()[0]
+                detail = " ".join(r.split()[2:])[:140].replace("|", "/")
+                lines.append("| %s | %s | %s | %s | %s |" % (sid, p, meta.get("needs", "")[:200].replace("|", "/").replace("\n", " "), verdict, detail))
+            open(path, "w").write("\n".join(lines) + "\n")
         if "--write" in a:
             with open(os.path.join(SEEDED, "RESULTS.md"), "w") as f:
                 f.write("# Seeded changes: result of `tools/seeded.py run --tier %s --write`\n\n" % tier)
